@@ -32,7 +32,7 @@ COUNTS = {'quick': 700, 'thorough': 12000}
 SHARD = 50
 
 ASSUMPTIONS = {p: [
-    'loop clock and wall clock are one variable (no NTP steps); instants on the 2^-9 s grid',
+    'loop clock and wall clock are one variable (no NTP steps); integer-nanosecond instants (a 2^-9 s grid plus off-grid advances)',
     'user callables do not call the scheduler re-entrantly (as the property states)',
     'theorems hold for runs that do not exhaust the model fuel (fuel 400 in the correspondence)',
 ] for p in PROFILES}
